@@ -1,0 +1,10 @@
+//go:build verif
+
+package ast
+
+// C09 / C05: what one evaluation can leave behind for another evaluation in the same process - outside the objects it
+// was handed - lives in a package-level variable. This is the inventory of this package's variables; a new one (seed
+// C09g: a process-wide counter of nested builtin calls, which made one VM's depth limit depend on what other VMs were
+// doing; seed C05i: a process-wide cache of parsed programs, which the compiler then mutated, so the second compilation
+// of a source differed from the first) needs a disposition here. Dispositions of the listed ones: none: the package has no variables.
+//@ scan[C09.pkgvars.ast] C09,C05 pkgvars github.com/risor-io/risor/ast: 
